@@ -170,7 +170,9 @@ public:
             std::coroutine_handle<> out = pop();
             void *me_addr = h.address();
             //check, whether my coroutine handle is also in the list (to avoid double insert)
-            bool me_included = false;
+            //(the handle which has been just popped can be also mine - then this coroutine
+            //continues immediately and must not be put to the queue again)
+            bool me_included = out.address() == me_addr;
             for (auto x: *this) {
                 me_included |= x == me_addr;
                 coro_queue::instance->push(std::coroutine_handle<>::from_address(x));
